@@ -21,6 +21,20 @@ CLAIMED = {
             'dictionary over global), and the write/reset/read frames of gamma_method and derived_observable are regenerated from '
             'the source on every run and decided. Every invariance of the statement is additionally evaluated on the implementation.',
             'Lean kernel; standard axioms; tr_frames (Python ast) trusted to parse; FFT by contract; generator-bounded search.', '5 C03'),
+    'C01': ('Lean 4 theorems: 31 gradient call sites regenerated from obs.py are the analytic derivatives (HasDerivAt); value / replica means / chains / union / range normal form / covariance chain rule of derived_observable; + model/impl correspondence on random operator trees + by-configuration-number oracle',
+            'Proof: every hand-written gradient of the overloads (regenerated from the AST each run) is proved to be the derivative of the '
+            'translated lambda body on its domain, and the lambda bodies are proved to be the intended functions; the structural part of '
+            'derived_observable (value, replica means, chain set, sorted union of configurations, range normal form, chain rule for covariance '
+            'inputs, flag inheritance) is proved for all inputs. The executable model runs whole operator trees and is compared with pyerrors; '
+            'an independent by-configuration-number oracle of the statement is evaluated on every case (scalar, array_mode, autograd, num_grad, CObs).',
+            'Lean kernel; standard axioms; tr_grads translator (Python ast); autograd / numdifftools by contract (measured); libm; generator-bounded search. '
+            'The per-configuration fluctuation formula (c01_delta) is proved separately when present in PV/Props/C01.lean; see evidence theorem list.', '5 C01'),
+    'C20': ('Lean 4 decide +kernel over tables regenerated from dirac.py / special.py + exhaustive execution of the implementation',
+            'Proof: Clifford algebra, Hermiticity, gamma5 product and anticommutation, all 16 Grid tags against the stated products / commutators, '
+            'both epsilon tensors on every tuple of {0..4}^3 and {0..4}^4 and the shape of the K_n vjp are decided by the Lean kernel over '
+            'definitions regenerated from the source on every run; the implementation is executed exhaustively on the same finite domains and '
+            'K_n / the re-exported special functions are compared with the analytic derivative on a grid.',
+            'Lean kernel (decide +kernel, no axioms beyond propext/Quot.sound); tr_dirac translator; scipy.special values and autograd special-function vjps by contract.', '5 C20'),
 }
 
 NOT_YET = {}
